@@ -54,8 +54,8 @@ def snapshot(data):
 
 
 def check(run, driver):
-    from causationentropy.core.discovery import discover_network
-
+    from common import EntryPoints
+    discover_network = EntryPoints("discover_network", "causationentropy.core.discovery", "causationentropy.core", "causationentropy")   # every public path, in turn
     run.rule = (
         "real discover_network on ndarray / DataFrame (string, integer and mixed labels), float and integer dtypes, constant and duplicated "
         "columns, all methods x estimator names with a scripted rational estimator (bulk, replayed through the Lean model) and the real "
